@@ -9,7 +9,7 @@
    rejects, MD5 of the schema files, titles of the schemas). *)
 From Coq Require Import String.
 From Coq Require Import List NArith Bool.
-From Verif Require Import Base Memo.
+From Verif Require Import Base Utf8 Transform CaseMap Memo.
 Import ListNotations.
 Open Scope N_scope.
 
@@ -88,6 +88,11 @@ Definition status_ok (o : outcome cart cerr) (st : status) : bool :=
 
 Section Run.
   Variable tags : kind -> bytes.
+  Variable ltbl : list case_range.    (* unicode.ToLower as a range table (regenerated: FactsC13.lower_table) *)
+
+  (* strings.ToLower on arbitrary bytes (CaseMap.v) *)
+  Definition go_lower (s : bytes) : bytes := utf8_map (map_rune ltbl) s.
+
   Variable c : case.
 
   Definition re_ok (p : bytes) : bool := negb (bmem p (c_bad_re c)).
@@ -95,8 +100,8 @@ Section Run.
   Definition schema_ok (p : bytes) : bool := negb (bmem p (c_bad_schema c)).
   Definition hash (p : bytes) : bytes := assoc p (c_hashes c).
 
-  Definition mstep := cstep tags hash re_ok binre_ok schema_ok.
-  Definition mconstruct := cconstruct tags hash re_ok binre_ok schema_ok.
+  Definition mstep := cstep tags go_lower hash re_ok binre_ok schema_ok.
+  Definition mconstruct := cconstruct tags go_lower hash re_ok binre_ok schema_ok.
 
   Fixpoint events_ok (s : pstate cart) (evs : list cev) : bool :=
     match evs with
@@ -112,6 +117,8 @@ Section Run.
     end.
 End Run.
 
-Definition ok (tags : kind -> bytes) (c : case) : bool := events_ok tags c (mk_ps [] []) (c_events c).
+Definition ok (tags : kind -> bytes) (ltbl : list case_range) (c : case) : bool :=
+  events_ok tags ltbl c (mk_ps [] []) (c_events c).
 
-Definition mismatches (tags : kind -> bytes) (l : list case) : list nat := mismatches_of (ok tags) l.
+Definition mismatches (tags : kind -> bytes) (ltbl : list case_range) (l : list case) : list nat :=
+  mismatches_of (ok tags ltbl) l.
